@@ -211,6 +211,10 @@ func (r *runner) check(t *C03Type, ver, dial int, body []byte, pool []C03VerBody
 		}
 	}
 	if t.Model && !big && r.sample(fmt.Sprintf("%s/%d/%d/%s", t.Name, ver, dial, kind)) {
+		if hkey%6 == 1 { // the spare-capacity run as a correspondence line too (Model/Total_cap.v gets the same tail)
+			i := int(hkey>>8) % len(r.tails)
+			c.Case("c03t "+mkkey()+" "+Hx(r.tails[i]), a2[i], nontrivial)
+		}
 		c.Case("c03p "+mkkey(), ans, nontrivial)
 	} else if c.Quick() {
 		c.Eval(strconv.FormatUint(hkey, 36), nontrivial)
